@@ -1420,6 +1420,11 @@ where
                 fat_start + BlockCount(u32::from(bpb.num_fats()) * bpb.fat_size());
             // Safe to unwrap since this is a Fat32 Type
             let info_location = bpb.fs_info_block().unwrap();
+            let info_block_idx = lba_start
+                .0
+                .checked_add(info_location.0)
+                .map(BlockIdx)
+                .ok_or(Error::FormatError("Info sector out of range"))?;
             let mut volume = FatVolume {
                 lba_start,
                 num_blocks,
@@ -1434,7 +1439,7 @@ where
                 next_free_cluster: None,
                 cluster_count: bpb.total_clusters(),
                 fat_specific_info: FatSpecificInfo::Fat32(Fat32Info {
-                    info_location: lba_start + info_location,
+                    info_location: info_block_idx,
                     first_root_dir_cluster: ClusterId(bpb.first_root_dir_cluster()),
                 }),
             };
@@ -1442,7 +1447,7 @@ where
             // Now we don't need the BPB, update the volume with data from the info sector
             trace!("Reading info block");
             let info_block = block_cache
-                .read(lba_start + info_location)
+                .read(info_block_idx)
                 .map_err(Error::DeviceError)?;
             let info_sector =
                 InfoSector::create_from_bytes(info_block).map_err(Error::FormatError)?;
